@@ -319,6 +319,10 @@ M("C09", "api-always-allows-changes-for-later-frames", "iodata/api.py", r"format
 M("C08", "dump-many-checks-dump-one-list", "iodata/api.py", r"_check_required\(filename, first, format_module\.dump_many\)", "_check_required(filename, first, format_module.dump_one)", "C08-R8")
 M("C08", "xyz-dump-many-requires-less", F + "xyz.py", r'@document_dump_many\("XYZ", \["atcoords", "atnums"\]', '@document_dump_many("XYZ", ["atcoords"]', "C08-R8")
 
+M("C07", "bonds-validator-loosened", "iodata/iodata.py", r"(bonds: Optional\[NDArray\[int\]\] = attrs\.field\((?:.|\n)*?)validate_shape\(None, 3\)", "\\1validate_shape(None, None)", "C07-R5")
+M("C07", "validate-shape-zero-is-wildcard", "iodata/attrutils.py", r"                if es is None:\n                    continue", "                if not es:\n                    continue", "C07-R5")
+M("C04", "gro-positions-partly-scaled", F + "gromacs.py", r"    pos \*= nanometer  # atom", "    pos[:, :2] *= nanometer  # atom", "C04-R1")
+
 # ----------------------------------------------------------------------------- additions (fourth round, batch 6)
 M("C07", "extxyz-title-parsed-after-putback", F + "extxyz.py", r"    atom_columns, title_data = _parse_title\(title_line, lit\)\n    lit\.back\(title_line\)\n    lit\.back\(atom_line\)\n", "    lit.back(title_line)\n    lit.back(atom_line)\n    atom_columns, title_data = _parse_title(title_line, lit)\n", "C07-R8")
 M("C07", "mol2-atom-loop-skips-blank-lines", F + "mol2.py", r"(    for i in range\(natoms\):\n        words = next\(lit\)\.split\(\)\n)", "\\1        if not words:\n            continue\n", "C07-R9")
